@@ -10,6 +10,7 @@ CONSTANTS
   Rank <- RankDef
   Stream <- StreamDef
   MaxCrashes = 2
+  Repair = FALSE
   Score <- ScoreDef
   IdLess <- IdLessDef
 INVARIANT BestComplete
